@@ -357,7 +357,8 @@ func (w *World) Exec(tb ev.TB, idx int, op Op, sync bool) *OpInfo {
 			r.Log = l
 		}
 	case "load":
-		if len(r.Model) == 0 {
+		if len(r.Model) == 0 || world.Codec(w.Prog.Codec) == world.CodecPB {
+			info.Skipped = true
 			break
 		}
 		lo := &ipfslog.LogOptions{ID: LogID, SortFn: world.SortFn(w.Order), IO: w.IO, AccessController: r.AC}
